@@ -186,3 +186,12 @@ Proof.
   { rewrite Hc1. unfold Rdiv. apply Rmult_lt_compat_r; [apply Rinv_0_lt_compat; lra|lra]. }
   destruct (Nat.leb_spec (L + 0) c); [lia|]. destruct (Nat.leb_spec (L + 0) (S c)); lra.
 Qed.
+
+(* ---------- SplineTerm.compile as a constructor of the compiled term ---------- *)
+Theorem compile_spline_default f cat n k p by_ cols col :
+  compile_spline Rfops f None cat n k p by_ (cols ++ [col]) =
+  option_map (fun e => SSpline f (fst e) (snd e) n k p by_) (gen_edge_knots Rfops cat col).
+Proof. unfold compile_spline. rewrite compile_history_default. destruct (gen_edge_knots Rfops cat col) as [[lo hi]|]; reflexivity. Qed.
+Theorem compile_spline_given f lo hi cat n k p by_ cols :
+  compile_spline Rfops f (Some (lo, hi)) cat n k p by_ cols = Some (SSpline f lo hi n k p by_).
+Proof. unfold compile_spline. rewrite compile_history_given. reflexivity. Qed.
